@@ -28,6 +28,8 @@ var checks = map[string]*check{
 			{Name: "routing-1id", Kind: "explore", Scen: "mux_route", Inst: inst("single", "single"), Depths: depths([]int{3}, []int{3, 4, 5}), Budget: budget(2*time.Minute, 10*time.Minute)},
 			{Name: "routing-2id", Kind: "explore", Scen: "mux_route", Inst: inst("pairs", "pairs-all"), Depths: depths([]int{2}, []int{2, 3}), Budget: budget(3*time.Minute, 20*time.Minute)},
 			{Name: "concurrent-dispense", Kind: "explore", Scen: "conc_ops", Inst: inst("c06", "c06"), Depths: depths([]int{2}, []int{2, 3}), Budget: budget(2*time.Minute, 10*time.Minute)},
+			// a dialled connection used again 6 s later with 400 KiB in each direction (beyond yamux's window)
+			{Name: "late-bulk", Kind: "explore", Scen: "mux_route", Inst: inst("late", "late"), Depths: depths([]int{2}, []int{2, 3}), Budget: budget(2*time.Minute, 10*time.Minute)},
 			{Name: "conformance", Kind: "conform", Scen: "mux_route"},
 		},
 	},
@@ -185,7 +187,7 @@ var checks = map[string]*check{
 			"bounded-latency verdicts (6 s; 14 s for a brokered exchange) only without TIME deviation",
 		},
 		Parts: []part{
-			{Name: "crash-points", Kind: "explore", Scen: "crash_plugin", Depths: depths([]int{2}, []int{2, 3}), Budget: budget(3*time.Minute, 25*time.Minute)},
+			{Name: "crash-points", Kind: "explore", Scen: "crash_plugin", Depths: depths([]int{2}, []int{2, 3}), Budget: budget(8*time.Minute, 30*time.Minute)},
 			{Name: "conformance", Kind: "conform", Scen: "crash_plugin"},
 		},
 	},
